@@ -466,6 +466,7 @@ pub fn run_check(cfg: CheckCfg, specs: Vec<WorkerSpec>, corpus_info: Value) -> i
     let mut n_viol = 0;
     let min_budget = if cfg.tier == "quick" { Duration::from_secs(40) } else { Duration::from_secs(180) };
     let mut reported = 0;
+    let mut infra_timeouts = 0usize;
     for (inv, idxs) in &by_inv {
         if let Some(k) = known.iter().find(|k| k.property == prop && &k.invariant == inv) {
             known_lines.push(format!("KNOWN-FINDING: property={prop} {} [{}] ({} runs this time, e.g. run {})", k.what, k.id, idxs.len(), results[idxs[0]].spec.run_idx));
@@ -485,6 +486,12 @@ pub fn run_check(cfg: CheckCfg, specs: Vec<WorkerSpec>, corpus_info: Value) -> i
         let tape0 = rr.res.tape.clone();
         // confirm by replay in a fresh worker, then minimise
         match reproduces(&base, &tape0, &prop, inv, timeout, "_c") {
+            None if inv == "worker_timeout" => {
+                // the wall-clock backstop fired (machine load) but the same seed completes
+                // without complaint when re-run: recorded, not an alarm
+                infra_timeouts += idxs.len();
+                n_viol -= idxs.len();
+            }
             None => {
                 harness_errors.push(format!("violation {prop}:{inv} of run {} did not reproduce on replay (nondeterminism)", base.run_idx));
             }
@@ -529,6 +536,7 @@ pub fn run_check(cfg: CheckCfg, specs: Vec<WorkerSpec>, corpus_info: Value) -> i
             "probes_and_fault_counts": stats,
             "determinism_pairs_checked": det_checked,
             "determinism_divergences": det_div.len(),
+            "wall_clock_backstop_fired_but_rerun_completed": infra_timeouts,
             "violations_of_other_properties_seen_in_these_runs": foreign,
             "known_findings_hit": known_lines,
             "real_vs_stub": cfg.real_stub,
